@@ -184,6 +184,19 @@ static inline void %(s)s_dtor(%(s)s *v) { if (v->b) free(v->b); v->b = 0; v->n =
                 self.use_contract(s + "_resize")
                 return init + [X("expr", X("call", s + "_resize", [ptr, tr.rv(nonalloc[0])]))]
             raise ExtractionBreak("std::vector constructor %s" % info.get("type"))
+        if canon == "std::mutex":
+            tr.need_record(canon)
+            tr.rule("std::mutex model")
+            tr.assume("std::mutex / std::lock_guard", "ghost lock: a held flag; lock_guard's constructor asserts the mutex is free and takes it, its destructor releases it; fields declared guarded_by a mutex may only be accessed while it is held (lock discipline); that the discipline implies race freedom and linearisability for all interleavings is the standard thread-modular argument (trusted, not proved)")
+            return [X("expr", X("assign", "=", X("mem", deref(ptr), "g_held"), X("lit", "0")))]
+        if canon.startswith("std::lock_guard<"):
+            tr.need_record(canon)
+            tr.rule("std::lock_guard model")
+            self.text.setdefault("lock_guard", """
+static inline void verif_lock_guard_ctor(std_lock_guard_std_mutex *g, std_mutex *m) { __CPROVER_assert(m->g_held == 0, "LOCK mutex acquired while already held (self-deadlock)"); m->g_held = 1; g->m = m; }
+static inline void verif_lock_guard_dtor(std_lock_guard_std_mutex *g) { g->m->g_held = 0; }
+""")
+            return [X("expr", X("call", "verif_lock_guard_ctor", [ptr, tr.bind_ref(args[0])]))]
         if canon.startswith("std::atomic<"):
             tr.need_record(canon)
             tr.rule("std::atomic model")
@@ -203,6 +216,8 @@ static inline void %(s)s_dtor(%(s)s *v) { if (v->b) free(v->b); v->b = 0; v->n =
                 return self.ensure_sp(ty.name) + "_dtor"
             if self.is_veclike(ty.name):
                 return self.ensure_vec(ty.name) + "_dtor"
+            if ty.name.startswith("std::lock_guard<"):
+                return "verif_lock_guard_dtor"
         return None
 
     # ------------------------------------------------------------------ calls
